@@ -211,7 +211,8 @@ def forall_keys(ctx):
         n += 1
         trues = [(bb, s[3]) for bb, b in enumerate(f.blocks) for s in b["s"]
                  if s[0] == "=" and s[1][0] == 0 and not s[1][1] and s[2][0] == "use" and const_value(f, s[2][1]) == 1]
-        bad = [(bb, l) for bb, l in trues if not any(f.dominates(t, bb) or t == bb for t in ex)]
+        inside = f.reachable(outer)
+        bad = [(bb, l) for bb, l in trues if bb in inside and not any(f.dominates(t, bb) or t == bb for t in ex)]
         ctx.ob("O7.FORALL-KEYS", f.id.rsplit("::", 1)[-1], bool(trues) and not bad, "`true` is produced only after the key loop is exhausted" if trues and not bad else
                ("no `true` result found" if not trues else "the predicate returns true at L%s before the loop over the ORDER BY keys is exhausted: "
                 "the remaining sort keys are not examined" % bad[0][1]), "%s:%s" % (f.file, bad[0][1] if bad else f.line))
